@@ -35,6 +35,15 @@ def main():
                         fired[prop] = (rc, reports)
             finally:
                 subprocess.run(f"git -C /repo worktree remove --force {wt}", shell=True, capture_output=True)
+            if "--record-undecided" in sys.argv:
+                mp = sd / "meta.json"
+                m = json.loads(mp.read_text())
+                und = sorted(p for p, v in fired.items() if v[0] == 2)
+                if und and not any(v[0] == 1 for v in fired.values()):
+                    m["undecided_ok"] = und
+                else:
+                    m.pop("undecided_ok", None)
+                mp.write_text(json.dumps(m, indent=1))
             if fired:
                 bad += 1
                 print(f"{sd.name}: NOT SILENT " + ", ".join(f"{p} rc={v[0]}" for p, v in sorted(fired.items())))
